@@ -756,7 +756,11 @@ def run_shard(spec, R):
             order = BASE_CLASSES + [LEN_CLASSES[(2 * k) % 6], LEN_CLASSES[(2 * k + 1) % 6]]
             order += [r.choice(BASE_CLASSES) for _ in range(max(0, spec["runs"] - len(order)))]
         else:
-            order = [CLASSES[(i + spec["shard"]) % len(CLASSES)] for i in range(spec["runs"])]
+            order, j = [], spec["shard"]
+            while len(order) < spec["runs"]:
+                order += BASE_CLASSES + [LEN_CLASSES[(2 * j) % 6], LEN_CLASSES[(2 * j + 1) % 6]]
+                j += 1
+            order = order[: spec["runs"]]
         for i, cls in enumerate(order):
             case = make_case(cls, isa, arch, r, pools)
             execute(case, R, work, mode="inproc", load=(i % 9 == 0))
